@@ -120,7 +120,7 @@ PROP_RE = re.compile(r'^\[(?P<name>[^\]]+)\] (?P<desc>.*): (?P<res>SUCCESS|FAILU
 
 def run_cbmc(cfiles, unwind, timeout, mem_gb=12, checks=True, trace_property=None, extra=(), wd=None, defs=None, _register=None):
     cmd = ['cbmc'] + list(cfiles) + ['-I' + RT, '--unwind', str(unwind), '--unwinding-assertions',
-                                    '--no-malloc-may-fail', '--drop-unused-functions', '--object-bits', '12', '--slice-formula', '--unwindset', 'vf_streq.0:50']
+                                    '--no-malloc-may-fail', '--drop-unused-functions', '--object-bits', '12', '--slice-formula', '--unwindset', 'vf_streq.0:50,x_strcmp.0:66']
     if not checks:
         cmd.append('--no-standard-checks')
     else:
@@ -173,7 +173,7 @@ def parse_cbmc(r):
         return res
     for m in PROP_RE.finditer(out):
         res['props'][m.group('name')] = (m.group('desc'), m.group('res'))
-    res['nobody'] = re.findall(r'no body for function (\S+)', out + r['err'])
+    res['nobody'] = re.findall(r'no body for (?:function|callee) ([^\s:]+)', out + r['err'])
     m = re.search(r'Runtime Solver: ([0-9.e+-]+)s', out)
     ts = re.findall(r'Runtime (?:Solver|decision procedure): ([0-9.e+-]+)s', out)
     if ts:
